@@ -28,6 +28,11 @@ var currentImplements = ""
 
 func NewJavaAPIListener(jIdentMap map[string]core_domain.CodeDataStruct, diMap map[string]string) *JavaAPIListener {
 	isSpringRestController = false
+	hasEnterRestController = false
+	hasEnterClass = false
+	baseApiUrl = ""
+	requestBodyClass = ""
+	localVars = make(map[string]string)
 	currentClz = ""
 	currentPkg = ""
 	currentImplements = ""
